@@ -214,7 +214,6 @@ func attack(opts *attackOpts) (err error) {
 		vegeta.Connections(opts.connections),
 		vegeta.MaxConnections(opts.maxConnections),
 		vegeta.HTTP2(opts.http2),
-		vegeta.H2C(opts.h2c),
 		vegeta.MaxBody(opts.maxBody),
 		vegeta.UnixSocket(opts.unixSocket),
 		vegeta.ProxyHeader(proxyHdr),
@@ -222,6 +221,10 @@ func attack(opts *attackOpts) (err error) {
 		vegeta.DNSCaching(opts.dnsTTL),
 		vegeta.ConnectTo(opts.connectTo),
 		vegeta.SessionTickets(opts.sessionTickets),
+		// H2C replaces the transport by one that dials through the old
+		// one: it goes last, or -connect-to, -dns-ttl and the options above
+		// that configure the old transport's dialing would silently not apply.
+		vegeta.H2C(opts.h2c),
 	)
 
 	res := atk.Attack(tr, opts.rate, opts.duration, opts.name)
